@@ -99,6 +99,24 @@ pub fn ignore_space(input: Span) -> PResult<()> {
     map(multispace1, |_| ()).parse(input)
 }
 
+/// The single white-space character that may end a hex escape.
+///
+/// A CR LF pair counts as one character here, as it does in css.
+pub fn hex_escape_end(input: Span) -> PResult<()> {
+    map(
+        alt((
+            tag("\r\n"),
+            tag(" "),
+            tag("\t"),
+            tag("\n"),
+            tag("\r"),
+            tag("\u{c}"),
+        )),
+        |_| (),
+    )
+    .parse(input)
+}
+
 fn ignore_lcomment(input: Span) -> PResult<()> {
     map(terminated(tag("//"), opt(is_not("\n"))), |_| ()).parse(input)
 }
